@@ -136,6 +136,7 @@ func H_C13_json_shapes(s any) {
 }
 
 // reading (export) from a mis-shaped document must not crash either
+//
 //vp:setup S_c13
 func H_C13_json_shapes_read(s any) {
 	m := s.(*meta.Module)
